@@ -164,6 +164,7 @@ func fixedCases() []corr.Case {
 	// known answers of XXH64 (reference implementation): "", "a", and three keys as the package hashes them today
 	out = append(out, mk("fixed-xxhash-known-answers", "remap 73", "xhash str::17241709254077376921", "xhash str:61:15154266338359012955",
 		"xhash str:757365723a3432:15861654238046376386", "xhash i64:-1:9642548396912002761", "xhash u8:7:12208272383309036471", "xhash bytes:61:15154266338359012955"))
+	out = append(out, mk("fixed-default-after-configured", "remap 5", "search 7", "remap d", "search 0", "search 18446744073709551615", "simple "+keyToken("int", "74"), "xhash "+keyToken("str", "61"), "remap 2", "remap d", "search 252695124297391419"))
 	out = append(out, mk("fixed-bulk", "cont map 73 simple", "bset 0 2000", "bdel 0 1600", "bprobe 1600 400", "bprobe 0 2000", "bset 1 1", "bprobe 0 3", "cont map 3 xhash", "bset 0 5", "bdel 0 0"))
 	out = append(out,
 		mk("fixed-malformed", "reset", "search 1", "remap", "remap x", "remap 0", "search 1", "remap 3", "search", "search -1", "search 18446744073709551616",
@@ -242,6 +243,30 @@ func genWideLRU(r *rng.R, m int) corr.Case {
 		rt = "xhash"
 	}
 	kd := r.Pick("lru", "lru", "tlru")
+	if r.Chance(1, 3) {
+		// per-shard capacities 10…64 with overflow, overwrites of the same size, few shards, many keys per shard
+		n = uint64(r.PickInt(1, 2, 3))
+		per := r.Range(10, 64)
+		capacity := int64(n)*int64(per-1) + int64(r.Intn(int(n)))
+		lines := []string{fmt.Sprintf("wl %s %d %d %s", kd, capacity, n, rt)}
+		universe := per*int(n) + r.Range(4, 30)
+		for j := 0; j < per*int(n)+m; j++ {
+			k := keyToken("int", strconv.Itoa(r.Intn(universe)))
+			switch x := r.Intn(100); {
+			case x < 55:
+				lines = append(lines, fmt.Sprintf("set %s %d %d", k, j+1, r.PickInt(1, 1, 1, 1, 2)))
+			case x < 70:
+				lines = append(lines, "get "+k)
+			case x < 80:
+				lines = append(lines, "exist "+k)
+			case x < 90:
+				lines = append(lines, "peek "+k)
+			default:
+				lines = append(lines, "del "+k)
+			}
+		}
+		return corr.Case{Tag: "wide-" + kd + "-" + rt + "-cap10+", Lines: lines}
+	}
 	per := r.Range(1, 3)
 	capacity := int64(n)*int64(per-1) + int64(r.Intn(int(n)))
 	if r.Chance(1, 8) {
@@ -467,6 +492,9 @@ func genCase(r *rng.R, tier string, i int) corr.Case {
 		return corr.Case{Tag: "first-use", Lines: []string{"reset", fmt.Sprintf("firstuse %d %d %d", big[r.Intn(len(big))], r.Range(5, 30), r.Range(2, 8))}}
 	case cls < 25: // routing of keys of every type
 		lines := []string{fmt.Sprintf("remap %d", n)}
+		if r.Chance(1, 4) {
+			lines = append(lines, "search 12345", "remap d") // a router built with NO option after a configured one: 73 shards all the same
+		}
 		for j := 0; j < m; j++ {
 			lines = append(lines, r.Pick("simple", "simple", "xhash")+" "+randKey(r, true))
 		}
